@@ -25,6 +25,10 @@ pub enum Leaf {
     Str,
     ListTk,
     OptTk,
+    /// the zero-sized registered `#[clone]` type: droppable, 0 bytes
+    Tz,
+    ListTz,
+    OptTz,
 }
 
 #[derive(Clone, Copy, Debug, PartialEq, Eq)]
@@ -44,6 +48,9 @@ pub enum Decl {
 pub struct Glue {
     pub decls: Vec<Decl>,
 }
+
+/// number of option declarations `nums()` puts in front of the declared types
+pub const OPTS: usize = 2;
 
 use Leaf::*;
 fn l(x: Leaf) -> GT {
@@ -93,6 +100,22 @@ pub fn table() -> Vec<(&'static str, Glue)> {
         // sizes that are not a power of two; floats
         ("enum-ip-then-tk", Glue { decls: vec![Decl::Enum(vec![vec![l(Ip), l(Tk)], vec![l(U8), l(Ip), l(Str)], vec![l(F64), l(Tk)], vec![l(Ip), l(U16), l(ListTk)]])] }),
         ("record-ip-then-tk", Glue { decls: vec![Decl::Record(vec![l(Ip), l(Tk), l(U8), l(Ip), l(Str)])] }),
+        // zero-sized droppable leaves: alone, next to sized droppable leaves, behind every size
+        // class, in nested declarations, behind `?`, in lists
+        ("enum-u64-then-tz", Glue { decls: vec![Decl::Enum(vec![vec![l(U64), l(Tz)], vec![l(Tz)], vec![l(Tz), l(U64)], vec![]])] }),
+        ("enum-tz-tk-mixed", Glue { decls: vec![Decl::Enum(vec![vec![l(Tz), l(Tk)], vec![l(Tk), l(Tz)], vec![l(U8), l(Tz), l(U64), l(Tk)], vec![l(Tz), l(Tz)]])] }),
+        ("record-tz-between", Glue { decls: vec![Decl::Record(vec![l(U64), l(Tz), l(U8), l(Tz), l(Str), l(Tz)])] }),
+        ("record-tz-and-scalar", Glue { decls: vec![Decl::Record(vec![l(Tz), l(U32)])] }),
+        ("enum-only-tz", Glue { decls: vec![Decl::Enum(vec![vec![l(Tz)], vec![l(Tz), l(Tz), l(Tz)], vec![]])] }),
+        ("record-of-tz-enum", Glue { decls: vec![
+            Decl::Enum(vec![vec![l(Tz)], vec![l(U8), l(Tz)], vec![]]),
+            Decl::Record(vec![l(U8), GT::User(0), l(Tz), GT::User(0)]),
+        ] }),
+        ("enum-of-tz-record", Glue { decls: vec![
+            Decl::Record(vec![l(Tz), l(U8), l(Tz)]),
+            Decl::Enum(vec![vec![GT::User(0), l(Tz)], vec![l(Tz), GT::User(0), l(Tk)], vec![l(U64)]]),
+        ] }),
+        ("enum-opt-list-tz", Glue { decls: vec![Decl::Enum(vec![vec![l(U64), l(OptTz)], vec![l(ListTz), l(Tz)], vec![l(OptTz), l(OptTk), l(Tz)]])] }),
         // nothing to drop at all
         ("enum-scalars-only", Glue { decls: vec![Decl::Enum(vec![vec![l(U64), l(U8)], vec![l(U32)], vec![]])] }),
     ]
@@ -107,11 +130,19 @@ impl Glue {
                 if i > 0 && rng.chance(1, 4) {
                     return GT::User(rng.below(decls.len() as u64) as usize);
                 }
-                l(*rng.pick(&[U8, U16, U32, U64, U64, F64, Ip, Bool, Tk, Tk, Str, ListTk, OptTk]))
+                l(*rng.pick(&[U8, U16, U32, U64, U64, F64, Ip, Bool, Tk, Tk, Str, ListTk, OptTk, Tz, Tz, Tz, ListTz, OptTz]))
             };
             if rng.chance(1, 3) {
                 let k = 1 + rng.below(6);
-                decls.push(Decl::Record((0..k).map(|_| field(rng, &decls)).collect()));
+                let mut fs: Vec<GT> = (0..k).map(|_| field(rng, &decls)).collect();
+                // A record of nothing but zero-sized registered values is a zero-sized aggregate:
+                // building one stops the code generator (`did not find Var`, open finding
+                // C02-zero-sized-aggregate-of-registered) — not this property's business, so such
+                // a record gets a byte of payload.
+                if fs.iter().all(|f| *f == l(Tz)) {
+                    fs.push(l(U8));
+                }
+                decls.push(Decl::Record(fs));
             } else {
                 let nv = 1 + rng.below(5);
                 let mut vs = vec![];
@@ -138,6 +169,9 @@ impl Glue {
             GT::Leaf(Str) => "String".into(),
             GT::Leaf(ListTk) => "List[Tk]".into(),
             GT::Leaf(OptTk) => "Tk?".into(),
+            GT::Leaf(Tz) => "Tz".into(),
+            GT::Leaf(ListTz) => "List[Tz]".into(),
+            GT::Leaf(OptTz) => "Tz?".into(),
             GT::User(i) => format!("T{i}"),
         }
     }
@@ -156,6 +190,15 @@ impl Glue {
             GT::Leaf(OptTk) => {
                 if sel % 2 == 0 {
                     format!("Some(mk({k}))")
+                } else {
+                    "None".into()
+                }
+            }
+            GT::Leaf(Tz) => format!("mkz({k})"),
+            GT::Leaf(ListTz) => format!("[mkz({k}), mkz({k})]"),
+            GT::Leaf(OptTz) => {
+                if sel % 2 == 0 {
+                    format!("Some(mkz({k}))")
                 } else {
                     "None".into()
                 }
@@ -235,16 +278,20 @@ impl Glue {
 
     /// The type trees as the numeric request the Lean driver reads
     /// (`c03 glue <nums…>`): `nDecls decl*`, `decl := 0 nFields ty* | 1 nVariants (nFields ty*)*`,
-    /// `ty := 0 size align droppable | 1 declIndex`; `Tk?` is sent as the enum it is.
+    /// `ty := 0 size align droppable | 1 declIndex`; `Tk?` and `Tz?` are sent as the enums they are.
     pub fn nums(&self) -> Vec<u64> {
-        // `Tk?` becomes an extra declaration in front: enum { Some(Tk), None }
-        let mut out = vec![self.decls.len() as u64 + 1, 1, 2, 1];
+        // `Tk?` and `Tz?` become two extra declarations in front: enum { Some(T), None }
+        let mut out = vec![self.decls.len() as u64 + OPTS as u64, 1, 2, 1];
         out.extend(leaf_nums(Tk));
+        out.push(0);
+        out.extend([1, 2, 1]);
+        out.extend(leaf_nums(Tz));
         out.push(0);
         let ty = |t: &GT, out: &mut Vec<u64>| match t {
             GT::Leaf(OptTk) => out.extend([1, 0]),
+            GT::Leaf(OptTz) => out.extend([1, 1]),
             GT::Leaf(x) => out.extend(leaf_nums(*x)),
-            GT::User(i) => out.extend([1, *i as u64 + 1]),
+            GT::User(i) => out.extend([1, (*i + OPTS) as u64]),
         };
         for d in &self.decls {
             match d {
@@ -268,16 +315,16 @@ impl Glue {
         out
     }
 
-    /// which entries of `nums()` (0 = `Tk?`, i + 1 = declaration i) the value of the last
-    /// declared type contains
+    /// which entries of `nums()` (0 = `Tk?`, 1 = `Tz?`, i + 2 = declaration i) the value of the
+    /// last declared type contains
     pub fn reachable(&self) -> Vec<bool> {
-        let mut r = vec![false; self.decls.len() + 1];
+        let mut r = vec![false; self.decls.len() + OPTS];
         let mut work = vec![self.decls.len() - 1];
         while let Some(i) = work.pop() {
-            if r[i + 1] {
+            if r[i + OPTS] {
                 continue;
             }
-            r[i + 1] = true;
+            r[i + OPTS] = true;
             let fields: Vec<GT> = match &self.decls[i] {
                 Decl::Record(fs) => fs.clone(),
                 Decl::Enum(vs) => vs.iter().flatten().copied().collect(),
@@ -285,6 +332,7 @@ impl Glue {
             for f in fields {
                 match f {
                     GT::Leaf(OptTk) => r[0] = true,
+                    GT::Leaf(OptTz) => r[1] = true,
                     GT::Leaf(_) => {}
                     GT::User(j) => work.push(j),
                 }
@@ -307,8 +355,11 @@ impl Glue {
                 GT::Leaf(U32) => '4',
                 GT::Leaf(U64) | GT::Leaf(F64) => '8',
                 GT::Leaf(Ip) => 'i',
-                GT::Leaf(Tk) | GT::Leaf(Str) | GT::Leaf(ListTk) => 'D',
+                GT::Leaf(Tk) | GT::Leaf(Str) | GT::Leaf(ListTk) | GT::Leaf(ListTz) => 'D',
                 GT::Leaf(OptTk) => 'O',
+                // a droppable leaf of size 0, and `Tz?`
+                GT::Leaf(Tz) => 'Z',
+                GT::Leaf(OptTz) => 'o',
                 GT::User(i) => match self.decls[*i] {
                     Decl::Record(_) => 'R',
                     Decl::Enum(_) => 'E',
@@ -349,7 +400,13 @@ pub fn leaf_nums(x: Leaf) -> [u64; 4] {
             align_of::<roto::List<roto::Val<crate::host::Tk>>>(),
             1,
         ),
-        OptTk => unreachable!("Tk? is an enum"),
+        Tz => (size_of::<roto::Val<crate::host::Tz>>(), align_of::<roto::Val<crate::host::Tz>>(), 1),
+        ListTz => (
+            size_of::<roto::List<roto::Val<crate::host::Tz>>>(),
+            align_of::<roto::List<roto::Val<crate::host::Tz>>>(),
+            1,
+        ),
+        OptTk | OptTz => unreachable!("Tk? / Tz? are enums"),
     };
     [0, s as u64, a as u64, d]
 }
